@@ -198,3 +198,101 @@ Definition widen (x : input) : xinput :=
               m_conditions := Some (cnb (t x), cnooa (t x));
               m_confirmations := [Some (snb (t x), snooa (t x))];
               m_statements := [sess (t x)] |} |}.
+
+(* ====================================================================================================
+   The decorations of a bearer confirmation and the conversation (strengthening round 6).  [message] knows of a
+   confirmation only its window.  A SubjectConfirmation also has a Method, its data may name an Address (optional in
+   saml-core 2.4.1.2; Shibboleth and ADFS send it) and carry a ds:KeyInfo, and the application may tell the SP which
+   peer the message came from (conv_info["remote_addr"]).  Mirrors get_subject(): verify_attesting_entity() first,
+   then per confirmation the method's check (_bearer_confirmed: no data -> not confirmed; an Address that is not an
+   IPv4/IPv6 text makes valid_address() raise NotValid; then the window exactly as before;
+   _holder_of_key_confirmed: data with a KeyInfo; sender-vouches: nothing), then verify_recipient() for a
+   confirmation that is kept (always true without conv_info).  A well-formed Address, a KeyInfo or the method of a
+   NEIGHBOURING confirmation never takes part in a window decision. *)
+Inductive method := MBearer | MHolderOfKey | MSenderVouches | MOther.
+(* SubjectConfirmationData/@Address: absent (or the empty string: falsy), a well-formed IPv4 / IPv6 / [IPv6] text,
+   any other text; [i] numbers the text (two attributes name the same peer iff the texts are equal) *)
+Inductive address := ANone | AWell (i : Z) | AMal (i : Z).
+Record decor := { k_method : method; k_address : address; k_keyinfo : bool }.
+Definition plain : decor := {| k_method := MBearer; k_address := ANone; k_keyinfo := false |}.
+(* conv_info: not given / names the wildcard 0.0.0.0 / names the peer with text number [i] *)
+Inductive remote := RNone | RAny | RAddr (i : Z).
+
+Record dinput := {
+  d_x : xinput;
+  d_decor : list decor;      (* parallel to m_confirmations (missing entries: [plain]) *)
+  d_remote : remote;
+  d_served : bool            (* the Recipient of the confirmations is one of the SP's endpoints for the delivery binding
+                                (looked at only when the application gives conv_info) *)
+}.
+
+Fixpoint zipd (ws : list (option window)) (ds : list decor) : list (option window * decor) :=
+  match ws with
+  | [] => []
+  | w :: r => match ds with
+              | [] => (w, plain) :: zipd r []
+              | d :: s => (w, d) :: zipd r s
+              end
+  end.
+
+Definition address_id (a : address) : option Z := match a with ANone => None | AWell i | AMal i => Some i end.
+
+(* verify_attesting_entity(): one confirmation has to be "correct" *)
+Definition attests (r : remote) (c : option window * decor) : bool :=
+  match fst c with
+  | None => true
+  | Some _ => match address_id (k_address (snd c)), r with
+              | Some i, RAddr j => i =? j
+              | _, _ => true
+              end
+  end.
+
+(* verify_recipient() *)
+Definition recipient_ok (r : remote) (served : bool) : bool := match r with RNone => true | _ => served end.
+
+Definition confirmed (n sl : Z) (r : remote) (served : bool) (c : option window * decor) : confirm :=
+  let keep := if recipient_ok r served then CKeep else CRaise in
+  match k_method (snd c), fst c with
+  | MBearer, None => CSkip
+  | MBearer, Some w => match k_address (snd c) with
+                       | AMal _ => CRaise
+                       | _ => match bearer_confirmed n sl (Some w) with CKeep => keep | o => o end
+                       end
+  | MHolderOfKey, None => CSkip
+  | MHolderOfKey, Some _ => if k_keyinfo (snd c) then keep else CSkip
+  | MSenderVouches, None => CRaise          (* _data.recipient on None: AttributeError *)
+  | MSenderVouches, Some _ => keep
+  | MOther, _ => CRaise                     (* ValueError: unknown method *)
+  end.
+
+Fixpoint dconfirmations_ok (n sl : Z) (r : remote) (served : bool) (l : list (option window * decor)) (kept : bool) : bool :=
+  match l with
+  | [] => kept
+  | c :: rest => match confirmed n sl r served c with
+                 | CRaise => false
+                 | CSkip => dconfirmations_ok n sl r served rest kept
+                 | CKeep => dconfirmations_ok n sl r served rest true
+                 end
+  end.
+
+Definition daccept (x : dinput) : verdict :=
+  let sl := timeslack (xatd (d_x x)) in
+  let n := xnow (d_x x) in
+  let m := xm (d_x x) in
+  if negb (unravels (m_binding m)) then Reject else
+  if negb (verify_ok n sl m) then Reject else
+  match statements_ok n sl (m_statements m) with
+  | None => Reject
+  | Some session =>
+    match conditions_ok n sl (m_conditions m) with
+    | None => Reject
+    | Some nooa =>
+      let cs := zipd (m_confirmations m) (d_decor x) in
+      if existsb (attests (d_remote x)) cs && dconfirmations_ok n sl (d_remote x) (d_served x) cs false
+      then Accept (if session >? 0 then session else nooa)
+      else Reject
+    end
+  end.
+
+(* an undecorated message *)
+Definition undecorated (x : xinput) : dinput := {| d_x := x; d_decor := []; d_remote := RNone; d_served := true |}.
